@@ -231,7 +231,7 @@ class C01(fw.Prop):
             "0,1,255,256,65535,65536,2^24+-1,2^32-1, payload/ciphertext lengths 0,1,122..129,250..257,65530..65540 and random, data-notification "
             "with/without date-time and every offset class, initiate with/without dedicated key and every non-default field; each value: "
             "to_bytes() = Spec.Xdlms.encode (driver) and XDlmsApduFactory.apdu_from_bytes(to_bytes()) canonically equal to the value "
-            "(None/b'' and QoS None/0 identified); every decoded value is overwritten in place and the bytes decoded again (decoding is a function of the bytes alone); data-notification date-times with every hundredths value; non-trivial = distinct protocol line")
+            "(None/b'' and QoS None/0 identified); every decoded value is overwritten in place and the bytes decoded again (decoding is a function of the bytes alone); data-notification date-times with every hundredths value; every value also produced from a re-used object (the previous value of its kind, fields transplanted one by one), decoded values re-encoded, dedicated keys containing the conformance tag; non-trivial = distinct protocol line")
     trusted_base = ["Spec.Xdlms is my reading of the Green Book xDLMS ASN.1 + A-XDR", "extract.py (enumerations, tag dispatch table)"]
     assumptions = ["values that differ only in Python's two spellings of 'no data' (None vs b'') or 'no QoS' (None vs 0) are identified",
                    "SET with selective access and the data-block / with-list variants are not represented by the library"]
